@@ -1028,3 +1028,46 @@ func TestManyChildren(t *testing.T) {
 		vlib.Case("TestManyChildren", fmt.Sprintf("children-%d", 2*n), "many-children")
 	}
 }
+
+// TestManyAnonymousChildren: "every With... call returns a child of the receiver - a newly created one". The names of
+// anonymous children are short and random; with many children under one parent a drawn name is in use already now and
+// then, and the call must still hand out a NEW child. (anonymousChildren calls make a repeated name nearly certain.)
+func TestManyAnonymousChildren(t *testing.T) {
+	defer vlib.Canon()()
+	n := anonymousChildren
+	parent := slog.New("many-anonymous")
+	seen := make(map[*slog.Entry]struct{}, n)
+	for i := 0; i < n; i++ {
+		var c *slog.Entry
+		switch i % 4 {
+		case 0:
+			c = parent.WithLevel(slog.InfoLevel)
+		case 1:
+			c = parent.New()
+		case 2:
+			c = parent.WithJSONMode(true)
+		default:
+			c = parent.WithUTCMode(true)
+		}
+		if _, dup := seen[c]; dup {
+			vlib.Discrep(t, "C10/with-returns-new", "C10 a logger with %d anonymous children: call #%d (%s) returned a child that an earlier call had handed out (name %q)", len(seen), i, []string{"WithLevel", "New()", "WithJSONMode", "WithUTCMode"}[i%4], c.Name())
+			return
+		}
+		seen[c] = struct{}{}
+	}
+	visited := 0
+	parent.Each(func(l *slog.Entry, depth int) { visited++ })
+	if visited != n+1 {
+		vlib.Discrep(t, "C10/tree", "C10 a logger with %d anonymous children: Each visited %d loggers, want %d", n, visited, n+1)
+	}
+	vlib.Case("TestManyAnonymousChildren", fmt.Sprintf("%d", n), "many-anonymous-children")
+}
+
+// anonymousChildren: children made by TestManyAnonymousChildren. The random names come from a generator seeded with the
+// clock reduced to 31 bits, i.e. about 2.1e9 possible names: among n children n*n/4.3e9 repetitions are expected.
+var anonymousChildren = func() int {
+	if vlib.Thorough() {
+		return 600000
+	}
+	return 250000
+}()
